@@ -92,6 +92,7 @@ def gen_case(run_seed: int, index: int, tier: str) -> dict:
         "warmup": rng.choice([None, None, [5], [2, 3], [2, 2, 4]]),
         "noncontig": rng.random() < 0.2,
         "warmup_n": rng.choice([1, 1, 2, 4]),
+        "reconfigure": rng.random() < 0.2,  # built with another value, then re-configured through the public attribute
     }
     if index % 5000 == 7:
         # one very large tensor per 5000 runs (block-wise generators would show at the tail)
@@ -177,23 +178,35 @@ def execute(case: dict) -> RunResult:
     # ---------------------------------------------------------------- build the two configurations
     laplace = comp == "LaplacianChannel"
 
+    def retarget(ch, attr, value):
+        """build-then-reconfigure: the object was created with another value and is given `value` through the
+        public attribute afterwards (the idiom of the repository's own examples)"""
+        if case.get("reconfigure") and hasattr(ch, attr):
+            setattr(ch, attr, value)
+            res.faults["history.reconfigured_by_attribute"] += 1
+        return ch
+
+    def other(v, is_db=False):
+        return (v + 7.0) if is_db else (v * 3.7)
+
     def build(which):
         """returns (callable x->(y, signal the noise is added to), configured (kind, value))"""
+        rc = bool(case.get("reconfigure"))
         if kind == "awgn_power":
             P = case["power"] if which == 1 else case["power2"]
-            ch = AWGNChannel(avg_noise_power=P)
+            ch = retarget(AWGNChannel(avg_noise_power=other(P) if rc else P), "avg_noise_power", P)
             return (lambda s: (ch(s), s)), ("power", P)
         if kind == "awgn_snr":
             S = case["snr_db"] if which == 1 else case["snr_db2"]
-            ch = AWGNChannel(snr_db=_snr_arg(case, S))
+            ch = retarget(AWGNChannel(snr_db=_snr_arg(case, other(S, True) if rc else S)), "snr_db", _snr_arg(case, S))
             return (lambda s: (ch(s), s)), ("snr", S)
         if kind == "lap_power":
             P = case["power"] if which == 1 else case["power2"]
-            ch = LaplacianChannel(avg_noise_power=P)
+            ch = retarget(LaplacianChannel(avg_noise_power=other(P) if rc else P), "avg_noise_power", P)
             return (lambda s: (ch(s), s)), ("power", P)
         if kind == "lap_snr":
             S = case["snr_db"] if which == 1 else case["snr_db2"]
-            ch = LaplacianChannel(snr_db=_snr_arg(case, S))
+            ch = retarget(LaplacianChannel(snr_db=_snr_arg(case, other(S, True) if rc else S)), "snr_db", _snr_arg(case, S))
             return (lambda s: (ch(s), s)), ("snr", S)
         if kind == "lap_scale":
             b = math.sqrt((case["power"] if which == 1 else case["power2"]) / 2.0)
@@ -214,7 +227,10 @@ def execute(case: dict) -> RunResult:
         if kind in ("fading_power", "fading_snr"):
             kw = {"avg_noise_power": (case["power"] if which == 1 else case["power2"])} if kind == "fading_power" else {"snr_db": (case["snr_db"] if which == 1 else case["snr_db2"])}
             ft = case["fading"]
-            ch = FlatFadingChannel(ft, coherence_time=7, k_factor=2.0 if ft == "rician" else None, shadow_sigma_db=4.0 if ft == "lognormal" else None, **kw)
+            kw0 = {k_: (other(v_, k_ == "snr_db") if rc else v_) for k_, v_ in kw.items()}
+            ch = FlatFadingChannel(ft, coherence_time=7, k_factor=2.0 if ft == "rician" else None, shadow_sigma_db=4.0 if ft == "lognormal" else None, **kw0)
+            for k_, v_ in kw.items():
+                retarget(ch, k_, v_)
             g = torch.Generator().manual_seed(case["data_seed"] ^ 0x5A5A)
             B = case["shape"][0] if len(case["shape"]) > 1 else 1
             Lh = n // B
@@ -295,6 +311,19 @@ def execute(case: dict) -> RunResult:
     res.faults["noise_samples_drawn"] += 2 * n
     per_row = kind == "add_noise_for_snr" and case["dim"] == -1 and len(case["shape"]) >= 2
 
+    # ---------------------------------------------------------------- a second use right after the first (no reseeding)
+    if n >= 200000 and kind != "add_noise_for_snr":
+        y1b, s1b = run1(x)
+        n1b = y1b - s1b
+        a_ = torch.view_as_real(n1).reshape(-1).double() if torch.is_complex(n1) else n1.reshape(-1).double()
+        b_ = torch.view_as_real(n1b).reshape(-1).double() if torch.is_complex(n1b) else n1b.reshape(-1).double()
+        pa, pb = float((a_ * a_).mean()), float((b_ * b_).mean())
+        if pa > 0 and pb > 0:
+            corr = float((a_ * b_).mean()) / math.sqrt(pa * pb)
+            res.probes["stat.cross_call_tests"] += 1
+            okc, dc = stats.normal_test(corr, 0.0, math.sqrt((3.0 if laplace else 1.0) / a_.numel()), 1e-4)
+            if not okc:
+                violate("noise_repeats_across_calls", f"the noise of two consecutive uses of one channel object is correlated: {dc}", stat=True)
     # ---------------------------------------------------------------- exact: same-seed scaling relation
     ps1 = _pw(s1)
     if ckind == "power":
@@ -443,6 +472,21 @@ def _conversions(case, res, log, violate):
                 bad += 1
         if bad > 3:
             break
+    # a caller may work in place on what a conversion returned; later conversions must not be affected
+    for s_ in grid[:40]:
+        for f_, arg in ((ksnr.snr_db_to_linear, s_), (ksnr.snr_linear_to_db, 10 ** (s_ / 10.0)), (lambda v: ksnr.snr_to_noise_power(sp, v), s_), (lambda v: ksnr.noise_power_to_snr(sp, sp / 10 ** (v / 10.0)), s_)):
+            r1 = f_(arg)
+            v1 = float(r1)
+            if isinstance(r1, torch.Tensor):
+                with torch.no_grad():
+                    r1.mul_(0).add_(123.0)
+            v2 = float(f_(arg))
+            if v1 != v2:
+                violate("conversion", f"a conversion of {arg!r} returned {v1!r}, and {v2!r} after the caller had modified the first result in place", tool="result_aliases_internal_state")
+                bad += 1
+                break
+        if bad:
+            break
     t = torch.tensor(grid, dtype=torch.float64)
     lin_t = ksnr.snr_db_to_linear(t)
     back = ksnr.snr_linear_to_db(lin_t)
@@ -456,7 +500,7 @@ def _conversions(case, res, log, violate):
 
 
 def shrink_key(sig):
-    return (sig.get("component"), sig.get("kind"), sig.get("mode"))
+    return (sig.get("component"), sig.get("kind"), sig.get("mode"), sig.get("tool"))
 
 
 def shrink_candidates(case: dict):
